@@ -91,6 +91,17 @@ func genC18(r *simrt.RNG, tier string, variant int) Plan {
 		p.Family = "faulty"
 		p.Faults = append(p.Faults, Fault{Kind: Pick(r, []string{"fin", "rst", "stall"}), Dir: Pick(r, []string{"c2s", "s2c"}), Pipe: 0,
 			Frame: r.Intn(8), Pos: Pick(r, cutPos), DurNs: int64(40e9)})
+		if f := &p.Faults[len(p.Faults)-1]; f.Kind == "stall" && r.Bool(0.5) {
+			// the peer stops sending for good, possibly in the middle of a frame, and
+			// the client has no time-out of its own: the closer must return all the same,
+			// long before anything heals
+			f.Dir, f.DurNs = "s2c", 0 // 0: stalled until the network is healed
+			f.Pos = Pick(r, []string{"mid", "mid", "header", "last", "after"})
+			p.Clients[0].TimeoutNs = -1
+			p.Params["closer_before_heal"] = 1
+			p.Params["close_step"] = int64(200 + r.Intn(1200))
+			return p
+		}
 		switch r.Intn(3) {
 		case 0:
 			p.Faults = append(p.Faults, Fault{Kind: "refuse", N: 2 + r.Intn(6), Frame: -1})
@@ -206,6 +217,16 @@ func runC18(e *Env, p *Plan) {
 		return
 	}
 	fire() // the workload ended before step k: close now, at quiescence
+	if p.Param("closer_before_heal", 0) > 0 {
+		if !e.S.Settle(2 * time.Minute) {
+			return
+		}
+		e.Probe("close-while-the-peer-is-stalled-for-good")
+		if _, done := w.Clients[0].closeState(); !done {
+			e.Violate("C18.closer-returns", "the WebSocket client's closer was invoked at step %d while the peer is stalled (nothing has healed yet) and has not returned 2 fake minutes later", w.Clients[0].CloseAt)
+			return
+		}
+	}
 	e.N.Heal()
 	if !e.S.Settle(H) {
 		return
